@@ -3,6 +3,10 @@ import json
 import os
 import subprocess
 from elab import passcheck
+
+
+def _reraise():
+    raise
 from fam import designs
 from vlib.ctx import ROOT, REPO, REPLAY_PY
 
@@ -45,7 +49,8 @@ def _ro(d):
     try:
         return detcheck.readonly(d)
     except Exception:
-        return dict(failed=True, crashed=True, observed=traceback.format_exc()[-800:], expected='-')
+        from vlib.guard import guarded
+        return guarded(_reraise)
 
 
 def run(ctx):
